@@ -467,6 +467,12 @@ func (ed *economicsData) ComputeGasUsedAndFeeBasedOnRefundValue(tx process.Trans
 			gasLimit := ed.ComputeGasLimit(tx)
 
 			gasLimitWithBuiltInCost := cost + gasLimit
+			// the built-in call cannot use more gas than the sender provided: it runs out of gas and consumes
+			// everything (the subtraction below would wrap around otherwise)
+			if gasLimitWithBuiltInCost > tx.GetGasLimit() {
+				return tx.GetGasLimit(), ed.ComputeTxFee(tx)
+			}
+
 			txFee := ed.ComputeTxFeeBasedOnGasUsed(tx, gasLimitWithBuiltInCost)
 
 			// transaction will consume all the gas if sender provided too much gas
